@@ -236,6 +236,9 @@ func (g *Gen) addObl(kind, name string, props []string, guard, goal string, extr
 
 // query assembles the SMT-LIB text for an obligation.
 func (o *Obligation) query(getModel bool) string {
+	if o.gen == nil {
+		return "; obligation decided by the generator's ownership dataflow, not by SMT\n; " + o.Name + "\n; " + o.Src + "\n; " + o.Output + "\n"
+	}
 	var sb strings.Builder
 	sb.WriteString(prelude)
 	g := o.gen
